@@ -4,7 +4,8 @@ usage: tools/benign_keep.py /tmp/benign   (needs patchK.diff, demoK.py, metaK.js
 import glob, json, os, re, shutil, sys
 VERIF = os.path.dirname(os.path.dirname(os.path.abspath(__file__)))
 src = sys.argv[1]
-force = set(sys.argv[2:])
+offset = int(sys.argv[2]) if len(sys.argv) > 2 and sys.argv[2].isdigit() else 0    # round 2: ids continue after round 1
+force = set(a for a in sys.argv[2:] if not a.isdigit())
 kept = 0
 for out in sorted(glob.glob(os.path.join(src, "C??*.out"))):
     pid = os.path.basename(out)[:-4]
@@ -17,12 +18,14 @@ for out in sorted(glob.glob(os.path.join(src, "C??*.out"))):
         if not ok:
             print(f"{pid}-{k}: NOT confirmed: {line}")
             continue
-        d = os.path.join(VERIF, "benign", f"{pid}-{k}")
+        kk = str(int(k) + offset) if k.isdigit() else k
+        d = os.path.join(VERIF, "benign", f"{pid}-{kk}")
         os.makedirs(d, exist_ok=True)
         shutil.copy(patch, os.path.join(d, "patch.diff"))
         shutil.copy(os.path.join(out, f"demo{k}.py"), os.path.join(d, "demo.py"))
         meta = json.load(open(os.path.join(out, f"meta{k}.json")))
         meta["confirmed"] = line[0].split(" ", 1)[1]
+        meta["round"] = 2 if offset else 1
         meta["origin"] = "behaviour-preserving edit written by an independent sub-agent that saw only the property text"
         json.dump(meta, open(os.path.join(d, "meta.json"), "w"), indent=1)
         kept += 1
